@@ -100,9 +100,19 @@ def r2_inplace(rep, facts):
         dec = deref_(fm[2]['decor'])
         got = (tag_of(el), repr(deref_(dec[2]['prefix'])), repr(deref_(dec[2]['suffix'])))
         carried = order_ok = got[0] == 'NEW' and 'pre-y' in got[1] and 'suf-y' in got[2]
+        # ... and an element without decor of its own leaves the incoming value without any: the decor a value brings along from where it stood before
+        # (a comment after `key = value`) does not travel into the array
+        arr2 = ('struct', 'toml_edit::array::Array', {'values': VecObj_([('ctor', I_ + 'Value', (fval(t),)) for t in ('x', 'y', 'z')]), 'trailing': ('opaque',), 'trailing_comma': False,
+                                                       'decor': ('struct', 'toml_edit::repr::Decor', {'prefix': NONE_, 'suffix': NONE_}), 'span': NONE_})
+        PlaceInterp(Evaluator(facts)).apply_fn(b, [arr2, 1, dv('NEW')])
+        el2 = deref_(deref_(arr2[2]['values']).items[1])
+        dec2 = deref_(deref_(deref_(el2[2][0])[2][0])[2]['decor'])
+        plain_decor = deref_(dec2[2]['prefix'])[1].endswith('::None') and deref_(dec2[2]['suffix'])[1].endswith('::None')
+        if not plain_decor:
+            carried = order_ok = False
     except (Unanalysable, _Ep, TypeError, KeyError, IndexError, AttributeError, ValueError, ImportError):
         pass
-    rep.check(R, d + '|carries-decor', carried and order_ok, '*value.decor_mut() = existing_decor.clone() before storing',
+    rep.check(R, d + '|carries-decor', carried and order_ok, 'the new value takes the replaced element\'s decor, set or unset (evaluated)',
               '`Array::replace` does not copy the replaced element\'s decor onto the new value before storing it (comments/whitespace around the element are lost)', facts.loc(b))
     # push / insert give the new element the default decoration (" " before it when the array already has elements, nothing when it is the
     # first; no suffix); the *_formatted forms store the value as given.  Decided by evaluating each method on an empty and a non-empty array
